@@ -880,7 +880,7 @@ func (fr *Frame) unop(st *State, in *ssa.UnOp) *Term {
 	switch in.Op {
 	case token.MUL: // load
 		a := fr.addrOf(in.X)
-		if a.base != nil && (a.kind == "field" || a.kind == "cell" || a.kind == "structref" || a.kind == "elem") {
+		if _, tracked := fr.addrs[in.X]; a.base != nil && !tracked && (a.kind == "field" || a.kind == "cell" || a.kind == "structref" || a.kind == "elem") {
 			if _, isAlloc := in.X.(*ssa.Alloc); !isAlloc {
 				fr.nonNil(st, a.base, in)
 			}
